@@ -299,6 +299,13 @@ def r_mag(E):
             elif isinstance(n, ast.Attribute) and n.attr == "data" and isinstance(n.value, ast.Attribute) \
                     and n.value.attr == "values":
                 sink = n
+            elif isinstance(n, ast.Call) and norm(n.func) in ("np.full", "numpy.full", "np.full_like") and (
+                    len(n.args) >= 2 or any(k.arg == "fill_value" for k in n.keywords)):
+                # a pint quantity handed to numpy as fill value loses its unit: np.full(n, q) keeps q's magnitude in
+                # whatever unit it was typed in (500 percent fills with 500)
+                fill = n.args[1] if len(n.args) >= 2 else next(k.value for k in n.keywords if k.arg == "fill_value")
+                if isinstance(fill, ast.Attribute) and fill.attr == "value":
+                    sink = fill
             elif isinstance(n, ast.Call) and isinstance(n.func, ast.Attribute) and n.func.attr == "to_numpy":
                 # only when it is not already the continuation of another sink
                 if not any(isinstance(x, ast.Attribute) and x.attr in ("magnitude", "_data", "data") for x in ast.walk(n.func.value)):
@@ -447,6 +454,40 @@ def r_mag(E):
                     {"clauses": ["all"] + (["operators"] if rel.endswith("explainable_objects.py") else [])}))
             elif len(res.samples) < 12:
                 res.samples.append({"site": f"{rel}:{int(n.lineno)} {q}", "rounding": norm(n)[:70], "receiver_unit": u[1]})
+    # comparisons with an absolute tolerance: np.isclose / np.allclose add atol (1e-8 by default) to bare magnitudes, taken
+    # in the unit of the first operand; math.isclose does so when abs_tol is given. A tolerance of 1e-8 "of whatever
+    # unit was typed" makes the answer depend on that unit (8e-13 s and 1.6e-12 s are "close", 0.8 ps and 1.6 ps are not)
+    for mod, (rel, tree, src) in sorted(pm.modules.items()):
+        for n in ast.walk(tree):
+            if not (isinstance(n, ast.Call) and len(n.args) >= 2):
+                continue
+            ft = norm(n.func)
+            last = ft.rsplit(".", 1)[-1]
+            if last not in ("isclose", "allclose", "assert_allclose"):
+                continue
+            kws = {k.arg: k.value for k in n.keywords}
+            if ft.startswith("math.") or ft == "isclose" and "abs_tol" in kws:
+                tol = kws.get("abs_tol")
+            else:
+                tol = kws.get("atol", n.args[3] if len(n.args) >= 4 else "default")
+            if tol is None or (isinstance(tol, ast.Constant) and tol.value == 0):
+                continue      # purely relative: scale-invariant
+            fn, cls = UN.enclosing(n)
+            if fn is None or _is_display(rel, fn):
+                continue
+            res.instances += 1
+            q = f"{cls.name}.{fn.name}" if cls is not None else fn.name
+            us = [UN.unit_of(_strip(a.value) if isinstance(a, ast.Attribute) and a.attr == "value" else a, fn, cls)
+                  for a in n.args[:2]]
+            if any(u_ is not None and u_[1] != "self.unit" for u_ in us):
+                counts["absolute tolerance on a fixed unit"] = counts.get("absolute tolerance on a fixed unit", 0) + 1
+                continue
+            res.findings.append(Finding(
+                "R-MAG", f"{rel}:{q} :: {norm(n)[:90]} absolute tolerance",
+                f"{q} compares `{norm(n.args[0])[:40]}` and `{norm(n.args[1])[:40]}` with an absolute tolerance "
+                f"({'the default atol=1e-8' if tol == 'default' else norm(tol)}) applied to the bare magnitudes in whatever unit "
+                f"the first operand was typed in: two values are 'equal' in one unit and different in another", rel,
+                n.lineno, q, {"clauses": ["all"] + (["operators"] if rel.endswith("explainable_objects.py") else [])}))
     res.breakdown = counts
     res.floor = 26
     return res
